@@ -67,6 +67,13 @@ def plan(tier: str, rnd: random.Random, logs: dict) -> list[dict]:
             out.append({"log": name, "ops": ops, "eav": rnd.choice((0, 1)), "k": k, "rows": rows,
                         "nodisc": rnd.choice((1, 1, 1, 0))})
     rnd.shuffle(out)
+    # role-swapped traffic (valid packets of other device classes sent by this system's own devices)
+    small = sorted((n for n in names if 10 <= len(logs[n]) <= 200), key=lambda n: len(logs[n]))
+    picks = small[:: max(1, len(small) // (2 if quick else 8))][: (2 if quick else 8)]
+    for n, name in enumerate(picks):
+        rows = X.role_swapped(rnd, list(logs[name]), 2 if quick else 4, 1)
+        out.insert(n, {"log": name, "ops": ["role-swapped"], "eav": n % 2, "k": max(50, len(rows) // 4), "rows": rows,
+                       "nodisc": 1})
     return out
 
 
